@@ -20,6 +20,12 @@ nested lists (no numpy look-alikes of the library formulas):
 * rrBLUP                = intercept is the training mean; monomorphic markers get exactly 0;
                           ||yc - Zu||^2 + ridge ||u||^2 <= ||yc||^2; (Z'Z + ridge I) u = Z'yc when n > p
 
+Deliberately outside the rings (see the final report of the ring author):
+raw dosage arrays of ploidy != 2 for the *dominance* design (a raw array carries
+no ploidy; the library documents {0,1,2} coding for it), float32 raw arrays
+(results are then float32-accurate by numpy semantics), empty populations (n=0,
+frequencies undefined), selection limits usl/lsl (property C10).
+
 A case is a small JSON dict (sizes, modes, one seed); all data are regenerated
 from it deterministically, or taken verbatim from explicit "geno"/"u_a" keys
 (exhaustive small scopes).
@@ -754,12 +760,11 @@ def _run_rr(case):
         return errs + [("rrblup-shape", "beta %s u_a %s u_misc %s for n=%d p=%d t=%d" % (beta.shape, ua.shape, model.u_misc.shape, n, p, t))]
     if not _labels_equal(model.trait, R["trait"]):
         errs.append(("rrblup-trait-labels", "model.trait %r, given %r" % (model.trait, R["trait"])))
-    loose = False
     for tt in range(t):
         y = [Yl[i][tt] for i in range(n)]
         mu = sum(y) / n
         ysc = max(abs(v) for v in y) + 1.0
-        if abs(float(beta[0, tt]) - mu) > (1e-9 if loose else 1e-12) * ysc:
+        if abs(float(beta[0, tt]) - mu) > 1e-12 * ysc:
             errs.append(("rrblup-intercept", "trait %d: intercept %r, training mean %r" % (tt, float(beta[0, tt]), mu)))
         for j in mono:
             if float(ua[j, tt]) != 0.0 or _isnan(float(ua[j, tt])):
@@ -793,8 +798,13 @@ def _run_rr(case):
         if n > k:
             bad = (nr > 1e-5 * nb) if nb > 1e-9 else (nr > 1e-7)
             if bad:
-                cond = float(numpy.linalg.cond(numpy.array(Amat, dtype="float64")))
-                cls = "rrblup-gauss-seidel-unconverged" if cond > 500.0 else "rrblup-normal-equations"
+                An, bn = numpy.array(Amat, dtype="float64").reshape(k, k), numpy.array(b, dtype="float64")
+                cond = float(numpy.linalg.cond(An))
+                # input class of the failure: the system is badly conditioned AND the library's own Gauss-Seidel
+                # iteration is still moving when it reaches its default cap of 1000 sweeps
+                from pybrops.model.gmod.rrBLUPModel0 import gauss_seidel
+                capped = not numpy.array_equal(gauss_seidel(An, bn, 1e-8, 1000), gauss_seidel(An, bn, 1e-8, 1001))
+                cls = "rrblup-gauss-seidel-unconverged" if (cond > 300.0 and capped) else "rrblup-normal-equations"
                 errs.append((cls, "trait %d: ||(Z'Z+ridge I)u - Z'y|| = %.3g, ||Z'y|| = %.3g (relative %.3g > 1e-5); ridge %.4g, "
                                   "cond(Z'Z+ridge I) = %.4g, n=%d, polymorphic markers=%d" % (tt, nr, nb, nr / nb if nb else float("inf"), ridge, cond, n, k)))
         # the fitted object predicts with its own parameters
@@ -986,7 +996,7 @@ def u_ring_allele_x(ctx):
 
 
 def _gen_rr(rnd, tier):
-    N = 520 if tier == "quick" else 9000
+    N = 420 if tier == "quick" else 7000
     out = []
     for c in range(N):
         r = rnd.random()
@@ -1014,14 +1024,14 @@ def _gen_rr(rnd, tier):
 
 
 @unit(P, RR, "R", bounded=True,
-      note="bounded: seeded random training sets (quick 520 / thorough 9000): records 2..14, polymorphic markers 1..10, "
+      note="bounded: seeded random training sets (quick 420 / thorough 7000): records 2..14, polymorphic markers 1..10, "
            "monomorphic markers 0..3, traits 1..3, responses = mean + marker signal + noise (sd .3..3), constant and pure-noise "
            "responses; fit_numpy and fit (genotype matrix / breeding value matrix)")
 def u_ring_rr(ctx):
     ctx.rule = ("intercept == training mean (1e-12 relative), monomorphic markers exactly 0, penalised criterion at fitted effects "
                 "<= criterion at zero with the fit's own ridge varE/varU, and for n > polymorphic markers the relative residual of "
-                "(Z'Z + ridge I)u = Z'(y-mean) <= 1e-5; failures with cond(Z'Z+ridge I) > 500 are classed as Gauss-Seidel "
-                "non-convergence; distinct by full case")
+                "(Z'Z + ridge I)u = Z'(y-mean) <= 1e-5; a failure is classed as Gauss-Seidel non-convergence only if "
+                "cond(Z'Z+ridge I) > 300 and the library's iteration is still moving at its 1000-sweep cap; distinct by full case")
     _drive(ctx, _gen_rr(ctx.rng, ctx.tier), lambda c: c["ymode"] != "const",
            lambda c: {k: c[k] for k in ("n", "p_poly", "n_mono", "t", "noise", "ymode", "via")})
 
